@@ -582,8 +582,9 @@ def result_alias_context(
             visited=ctx.visited,
             local_modules=ctx.local_modules,
         )
-        # use the same refs set
+        # use the same refs sets
         nctx.refs = ctx.refs
+        nctx.weak_refs = ctx.weak_refs
         nctx.objects[sn.QualName('__alias__', alias)] = obj
     else:
         nctx = ctx
